@@ -1293,6 +1293,9 @@ func (g *Gen) VerifyFunction(fn *ssa.Function) (err error) {
 	fr.execBody(st, "true")
 	// an anchored clause whose anchor is never reached would silently stop binding
 	for i, a := range fc.Asserts {
+		if a.Assume && len(a.Havoc) == 0 && a.SetName == "" {
+			continue // an assumption that is never made only makes the proof harder
+		}
 		if !fr.firedAnchors[i] {
 			g.fail("contract of %s: anchor %q is never reached (clause %s)", funcKey(fn), a.Anchor, a.C.Src)
 		}
